@@ -824,4 +824,122 @@ theorem map_filterMapPos_eq {β : Type} (φ : Int → Option Int) (c : Pos → B
       simp only [Option.map_some, if_true, List.map_cons, h3]
       rw [ih']
 
+/-! ## split: the windows of the pieces -/
+
+/-- consecutive pairs of a cut list: the windows `[a, b)` of the pieces of `gts split` -/
+def windows (l : List Int) : List (Int × Int) := l.zip l.tail
+
+theorem windows_cons_cons (a b : Int) (l : List Int) :
+    windows (a :: b :: l) = (a, b) :: windows (b :: l) := rfl
+
+theorem pieces_eq_map (s : Seq) (l : List Int) :
+    pieces s l = (windows l).map fun w => s.slice w.1 w.2 := by
+  induction l with
+  | nil => rfl
+  | cons a l ih =>
+    cases l with
+    | nil => rfl
+    | cons b l =>
+      rw [pieces, windows_cons_cons, List.map_cons, ih]
+
+theorem mem_windows (l : List Int) (w : Int × Int) (h : w ∈ windows l) : w.1 ∈ l ∧ w.2 ∈ l.tail :=
+  List.of_mem_zip h
+
+/-- every position between the first and the last cut lies in some window -/
+theorem window_exists (a : Int) (cuts : List Int) (L x : Int) (hl : (a :: cuts).getLast? = some L)
+    (h0 : a ≤ x) (h1 : x < L) : ∃ w ∈ windows (a :: cuts), w.1 ≤ x ∧ x < w.2 := by
+  induction cuts generalizing a with
+  | nil => simp at hl; omega
+  | cons b cuts ih =>
+    by_cases hx : x < b
+    · exact ⟨(a, b), by simp [windows_cons_cons], h0, hx⟩
+    · obtain ⟨w, hw, hw2⟩ := ih b (by simpa using hl) (by omega)
+      exact ⟨w, by rw [windows_cons_cons]; exact List.mem_cons_of_mem _ hw, hw2⟩
+
+/-- … and, the cuts being non-decreasing, in only one -/
+theorem window_unique (l : List Int) (hs : l.Pairwise (fun a b => a ≤ b)) (w w' : Int × Int)
+    (hw : w ∈ windows l) (hw' : w' ∈ windows l) (x : Int) (h : w.1 ≤ x ∧ x < w.2)
+    (h' : w'.1 ≤ x ∧ x < w'.2) : w = w' := by
+  induction l with
+  | nil => cases hw
+  | cons a l ih =>
+    cases l with
+    | nil => cases hw
+    | cons b l =>
+      have hp := List.pairwise_cons.mp hs
+      have hpb := List.pairwise_cons.mp hp.2
+      rw [windows_cons_cons] at hw hw'
+      have tailge : ∀ v ∈ windows (b :: l), b ≤ v.1 := by
+        intro v hv
+        rcases List.mem_cons.mp (mem_windows _ v hv).1 with h | h
+        · omega
+        · exact hpb.1 _ h
+      rcases List.mem_cons.mp hw with rfl | hw <;> rcases List.mem_cons.mp hw' with rfl | hw'
+      · rfl
+      · have := tailge _ hw'; simp only at h; omega
+      · have := tailge _ hw; simp only at h'; omega
+      · exact ih hp.2 hw hw'
+
+/-- a window of a non-decreasing cut list is forward and lies between the first and last cut -/
+theorem window_bounds (l : List Int) (hs : l.Pairwise (fun a b => a ≤ b)) (w : Int × Int)
+    (hw : w ∈ windows l) : w.1 ≤ w.2 := by
+  induction l with
+  | nil => cases hw
+  | cons a l ih =>
+    cases l with
+    | nil => cases hw
+    | cons b l =>
+      have hp := List.pairwise_cons.mp hs
+      rw [windows_cons_cons] at hw
+      rcases List.mem_cons.mp hw with rfl | hw
+      · exact hp.1 b (List.mem_cons_self ..)
+      · exact ih hp.2 hw
+theorem rangeOverlap_of_mem (s e lo hi q : Int) (h1 : s ≤ q) (h2 : q < e) (h3 : lo ≤ q) (h4 : q < hi) :
+    rangeOverlap s e lo hi = true := by
+  unfold rangeOverlap
+  rw [if_neg (by omega), if_neg (by omega)]
+  simp only [Bool.and_eq_true, decide_eq_true_eq]
+  omega
+
+mutual
+/-- a location denoting a residue inside `[lo, hi)` overlaps that window (`LocationOverlap`) -/
+theorem overlap_of_den : ∀ (l : Loc) (lo hi : Int), wf l = true → ∀ p ∈ den l, lo ≤ p.1 → p.1 < hi →
+    overlap l lo hi = true
+  | between _, _, _, _, p, hp, _, _ => by simp [Loc.den] at hp
+  | point q, lo, hi, _, p, hp, h3, h4 => by
+      simp only [Loc.den, List.mem_singleton] at hp
+      subst hp
+      exact rangeOverlap_of_mem q (q + 1) lo hi q (by omega) (by omega) h3 h4
+  | ranged s e _ _, lo, hi, _, p, hp, h3, h4 => by
+      simp only [Loc.den, fwd, List.mem_map] at hp
+      obtain ⟨x, hx, rfl⟩ := hp
+      have := mem_irange.mp hx
+      exact rangeOverlap_of_mem s e lo hi x (by omega) (by omega) h3 h4
+  | ambiguous s e, lo, hi, _, p, hp, h3, h4 => by
+      simp only [Loc.den, fwd, List.mem_map] at hp
+      obtain ⟨x, hx, rfl⟩ := hp
+      have := mem_irange.mp hx
+      exact rangeOverlap_of_mem s e lo hi x (by omega) (by omega) h3 h4
+  | joined ls, lo, hi, hw, p, hp, h3, h4 => by
+      simp only [overlap]
+      exact overlapAny_of_den ls lo hi (by simpa [wf] using hw) p (by simpa [Loc.den] using hp) h3 h4
+  | ordered ls, lo, hi, hw, p, hp, h3, h4 => by
+      simp only [overlap]
+      exact overlapAny_of_den ls lo hi (by simpa [wf] using hw) p (by simpa [Loc.den] using hp) h3 h4
+  | compl l, lo, hi, hw, p, hp, h3, h4 => by
+      simp only [overlap]
+      simp only [Loc.den, flipDen, List.mem_map, List.mem_reverse] at hp
+      obtain ⟨q, hq, rfl⟩ := hp
+      exact overlap_of_den l lo hi (by simpa [wf] using hw) q hq h3 h4
+theorem overlapAny_of_den : ∀ (ls : List Loc) (lo hi : Int), wfList ls = true → ∀ p ∈ denList ls,
+    lo ≤ p.1 → p.1 < hi → overlapAny ls lo hi = true
+  | [], _, _, _, p, hp, _, _ => by simp [Loc.denList] at hp
+  | l :: ls, lo, hi, hw, p, hp, h3, h4 => by
+      simp only [wfList_cons, Bool.and_eq_true] at hw
+      simp only [denList_cons, List.mem_append] at hp
+      simp only [overlapAny, Bool.or_eq_true]
+      rcases hp with hp | hp
+      · exact Or.inl (overlap_of_den l lo hi hw.1 p hp h3 h4)
+      · exact Or.inr (overlapAny_of_den ls lo hi hw.2 p hp h3 h4)
+end
 end Gts.Cli
